@@ -569,15 +569,15 @@ enum Fill {
     InnerRight,
 }
 
-fn wrap_with(x: &Seq, w: Wrap, f: Fill, y: &Kind) -> Seq {
-    let yn = || Node::new(y.clone());
+fn wrap_with(x: &Seq, w: Wrap, f: Fill, y: &[Kind]) -> Seq {
+    let yn = || -> Seq { y.iter().map(|k| Node::new(k.clone())).collect() };
     let mut inner: Seq = vec![];
     if f == Fill::InnerLeft {
-        inner.push(yn());
+        inner.extend(yn());
     }
     inner.extend(x.iter().cloned());
     if f == Fill::InnerRight {
-        inner.push(yn());
+        inner.extend(yn());
     }
     let b = || vec![Node::new(lit("b"))];
     let node = match w {
@@ -590,11 +590,11 @@ fn wrap_with(x: &Seq, w: Wrap, f: Fill, y: &Kind) -> Seq {
     };
     let mut out: Seq = vec![];
     if f == Fill::OuterLeft {
-        out.push(yn());
+        out.extend(yn());
     }
     out.push(node);
     if f == Fill::OuterRight {
-        out.push(yn());
+        out.extend(yn());
     }
     out
 }
@@ -615,10 +615,15 @@ pub fn position_family(depth: usize, full: bool) -> Vec<Seq> {
     else {
         vec![Wrap::Alt1, Wrap::Alt2R, Wrap::Rep12, Wrap::Rep0]
     };
-    let fillers: Vec<Kind> = if full { vec![lit("a"), Kind::Sep, Kind::Zom(false)] } else { vec![lit("a"), Kind::Sep] };
-    let mut contexts: Vec<(Wrap, Fill, Kind)> = vec![];
+    let fillers: Vec<Vec<Kind>> = if full {
+        vec![vec![lit("a")], vec![Kind::Sep], vec![Kind::Zom(false)], vec![lit("a"), Kind::Sep], vec![Kind::Sep, lit("a")]]
+    }
+    else {
+        vec![vec![lit("a")], vec![Kind::Sep], vec![lit("a"), Kind::Sep], vec![Kind::Sep, lit("a")]]
+    };
+    let mut contexts: Vec<(Wrap, Fill, Vec<Kind>)> = vec![];
     for w in &wraps {
-        contexts.push((*w, Fill::None, Kind::Sep));
+        contexts.push((*w, Fill::None, vec![Kind::Sep]));
         for f in [Fill::OuterLeft, Fill::OuterRight, Fill::InnerLeft, Fill::InnerRight] {
             for y in &fillers {
                 contexts.push((*w, f, y.clone()));
@@ -640,5 +645,71 @@ pub fn position_family(depth: usize, full: bool) -> Vec<Seq> {
         out.extend(next.iter().cloned());
         level = next;
     }
+    out
+}
+
+/// Flag family: case flags before, between and inside groups at nesting depth <= 2, over cased
+/// literals. This is the state space of the textual flag threading and of its encoding.
+pub fn flag_family() -> Vec<Seq> {
+    let flags: Vec<Option<bool>> = vec![None, Some(true), Some(false)];
+    let f = |x: Option<bool>| -> Seq { x.map(|b| vec![Node::new(Kind::Flag(vec![b]))]).unwrap_or_default() };
+    let l = |t: &str| Node::new(lit(t));
+    let groups: Vec<fn(Seq) -> Node> = vec![
+        |b| Node::new(Kind::Alt(vec![b])),
+        |b| Node::new(Kind::Alt(vec![b, vec![Node::new(lit("c"))]])),
+        |b| Node::new(Kind::Alt(vec![vec![Node::new(lit("c"))], b])),
+        |b| Node::new(Kind::Rep { body: b, bounds: Bounds::Range("1".into(), Some("2".into())) }),
+        |b| Node::new(Kind::Rep { body: b, bounds: Bounds::None }),
+    ];
+    let mut out = vec![];
+    for f1 in &flags {
+        for f2 in &flags {
+            for f3 in &flags {
+                for g in &groups {
+                    // f1 a f2 G(f3 b)
+                    let mut s = f(*f1);
+                    s.push(l("a"));
+                    s.extend(f(*f2));
+                    let mut body = f(*f3);
+                    body.push(l("b"));
+                    s.push(g(body.clone()));
+                    out.push(s);
+                    // G(f1 a) f2 b   and   G(f1 a) f2 [b]
+                    let mut inner = f(*f1);
+                    inner.push(l("a"));
+                    let mut s = vec![g(inner.clone())];
+                    s.extend(f(*f2));
+                    s.push(l("b"));
+                    out.push(s);
+                    let mut s = vec![g(inner.clone())];
+                    s.extend(f(*f2));
+                    s.push(Node::new(class(false, &[ClassItem::Ch('b')])));
+                    out.push(s);
+                    // f1 a G(f2 b G'(f3 c))  with G' = single-branch alternation
+                    let mut innermost = f(*f3);
+                    innermost.push(l("c"));
+                    let mut mid = f(*f2);
+                    mid.push(l("b"));
+                    mid.push(Node::new(Kind::Alt(vec![innermost])));
+                    let mut s = f(*f1);
+                    s.push(l("a"));
+                    s.push(g(mid));
+                    out.push(s);
+                    // f1 a G(b) f3 c : flag state after a group
+                    let mut s = f(*f1);
+                    s.push(l("a"));
+                    let mut body = f(*f2);
+                    body.push(l("b"));
+                    s.push(g(body));
+                    s.extend(f(*f3));
+                    s.push(l("c"));
+                    out.push(s);
+                }
+            }
+        }
+    }
+    let mut out: Vec<Seq> = out.into_iter().map(|s| crate::astops::normalize(&s)).filter(|s| is_canonical(s)).collect();
+    out.sort();
+    out.dedup();
     out
 }
